@@ -292,6 +292,7 @@ func cmdCheck(args []string) int {
 	loadWall := time.Since(t0)
 	replayProg = prog
 
+	var stopFlag int32
 	results := make([]*harnessResult, len(specs))
 	var wg sync.WaitGroup
 	sem := make(chan struct{}, *workers)
@@ -301,7 +302,7 @@ func cmdCheck(args []string) int {
 			defer wg.Done()
 			sem <- struct{}{}
 			defer func() { <-sem }()
-			results[i] = runHarness(prog, h, *tier, known)
+			results[i] = runHarness(prog, h, *tier, known, &stopFlag)
 		}(i, h)
 	}
 	wg.Wait()
@@ -367,7 +368,7 @@ func cmdCheck(args []string) int {
 				samples = append(samples, s)
 			}
 		}
-		if !r.Complete {
+		if !r.Complete && !r.E.CutShort {
 			broken = append(broken, r.Spec.Func+": exploration incomplete")
 		}
 		for _, s := range st.Inconclusive {
@@ -495,7 +496,7 @@ func solverErrors(e *sx.Explorer) []string {
 	return out
 }
 
-func runHarness(prog *sx.Program, h *harnessSpec, tier string, known []knownEntry) (res *harnessResult) {
+func runHarness(prog *sx.Program, h *harnessSpec, tier string, known []knownEntry, stop *int32) (res *harnessResult) {
 	res = &harnessResult{Spec: h}
 	defer func() {
 		if r := recover(); r != nil {
@@ -524,6 +525,7 @@ func runHarness(prog *sx.Program, h *harnessSpec, tier string, known []knownEntr
 			res.TwinNote = "twin with assert(false) was NOT violated: no assertion reachable"
 		}
 	}
+	opt.Stop = stop
 	e := sx.NewExplorer(prog, h.Func, opt)
 	for _, k := range known {
 		if k.Status != "known" || (k.Harness != "" && k.Harness != h.Func) || k.Property != h.Property {
